@@ -120,14 +120,21 @@ class IG:
             v = 97 + v % 26
             return (f"'{chr(v)}'" if s.r.random() < 0.5 else str(v)), v
         return str(v), v
-    def is_chararr(s, t): return isinstance(t, Ar) and isinstance(t.el, Sc) and t.el.ty in ('char', 'unsigned char') and not t.el.bf
+    STRPFX = {'char': '', 'unsigned char': '', 'unsigned short': 'u', 'unsigned': 'U', 'int': 'L'}      # char16_t / char32_t / wchar_t of this ABI
+    def is_chararr(s, t): return isinstance(t, Ar) and isinstance(t.el, Sc) and t.el.ty in s.STRPFX and not t.el.bf
+    def want_string(s, t, p):
+        if not s.is_chararr(t): return False
+        wide = t.el.ty not in ('char', 'unsigned char')
+        ok = s.r.random() < (p / 3 if wide else p)
+        if ok and wide: s.feat.add('wide_string')
+        return ok
     def strlit(s, t, unknown=False):
         n = t.n if t.n is not None else s.r.randint(1, 5)
         ln = s.r.randint(0, n if not unknown else n - 1)
         s.k += 1; txt = ''.join(chr(97 + (s.k + i) % 26) for i in range(ln))
         vals = [ord(c) for c in txt] + [0] * (n - ln)
         if unknown: vals = [ord(c) for c in txt] + [0]
-        return '"' + txt + '"', vals[:n] if not unknown else vals
+        return s.STRPFX[t.el.ty] + '"' + txt + '"', vals[:n] if not unknown else vals
     # whole-object initializer: returns (text, model)
     def init(s, t, top=False):
         r = s.r
@@ -135,7 +142,7 @@ class IG:
             txt, v = s.scal(t)
             if r.random() < 0.06: s.feat.add('scalar_braces'); return '{ ' + txt + ' }', v
             return txt, v
-        if s.is_chararr(t) and r.random() < 0.45:
+        if s.want_string(t, 0.45):
             s.feat.add('string'); txt, vals = s.strlit(t, unknown=(t.n is None))
             return (('{ ' + txt + ' }') if r.random() < 0.2 else txt), vals
         txt, m = s.lst(t)
@@ -218,8 +225,15 @@ class IG:
                         setsub(target_fr, target_pos, val)
                         if rng_hi is not None:
                             import copy
+                            def mark(x):
+                                # the copies are initialised objects too: a later braced item for them would be a D54 override
+                                if isinstance(x, (list, dict)):
+                                    touched.add(id(x))
+                                    for y in (x if isinstance(x, list) else x.values()):
+                                        mark(y)
                             for q in range(target_pos + 1, rng_hi + 1):
-                                setsub(target_fr, q, copy.deepcopy(val))
+                                cp = copy.deepcopy(val); mark(cp)
+                                setsub(target_fr, q, cp)
                             newstack[-1][1] = rng_hi + 1
                         items.append(text + ' = ' + txt); nitems += 1; stack = newstack
                     else:
@@ -252,11 +266,11 @@ class IG:
                 # only brace elision may continue into an aggregate that a designator already touched (D54 otherwise)
                 EXCL['D54'] += 1; s.feat.add('elision'); sub_m = getsub(fr, i)
                 stack.append([ty, 0, sub_m, True])
-            elif s.is_chararr(ty) and r.random() < 0.4:
+            elif s.want_string(ty, 0.4):
                 s.feat.add('string'); txt, vals = s.strlit(ty); setsub(fr, i, vals); items.append(txt); nitems += 1
             elif r.random() < 0.5 and not fresh:
                 txt, val = s.init(ty)
-                while not txt.startswith('{') and not txt.startswith('"'): txt, val = s.init(ty)
+                while not txt.startswith('{') and not txt.lstrip('uUL').startswith('"'): txt, val = s.init(ty)
                 setsub(fr, i, val); items.append(txt); nitems += 1
             else:
                 s.feat.add('elision'); sub_m = getsub(fr, i)
@@ -306,7 +320,7 @@ class C05:
     level = 'exploration'
     rule = ('cases = (type, initializer) pairs: the type is drawn from scalars (incl. pointers initialised by address constants with offsets), arrays (also of unknown bound), '
             'structs/unions with bit-fields, unnamed bit-fields and anonymous members (depth<=3); the initializer is drawn by a stack machine over 6.7.9 (positional items, brace elision, '
-            'nested/out-of-order designators and [lo ... hi] range designators with cursor resumption, bit-fields up to 64 bits wide holding values with their top bits set, overrides of scalars, short lists, trailing commas, strings with and without braces, scalars in braces) and comes with a model of the object value. '
+            'nested/out-of-order designators and [lo ... hi] range designators with cursor resumption, bit-fields up to 64 bits wide holding values with their top bits set, overrides of scalars, short lists, trailing commas, strings (also u"", U"", L"" for arrays of the matching element type) with and without braces, scalars in braces) and comes with a model of the object value. '
             'The same text initialises a file-scope object, a static local, an automatic object in a dirtied frame and a compound literal; all dumps must equal the model, gcc and clang. '
             'non-trivial = uses a designator, brace elision, a string into a nested array, a union, or resumes after a nested designator; distinct by (type text, initializer text).')
     assumptions = ['gcc and clang implement 6.7.9; a case counts only if both agree with each other and with the model',
@@ -327,7 +341,7 @@ class C05:
             t = Ar(t.el, None)
         g = IG(r)
         ini, model = g.init(t, top=True)
-        if not ini.startswith('{') and not ini.startswith('"'):
+        if not ini.startswith('{') and not ini.lstrip('uUL').startswith('"'):
             ini = '{ ' + ini + ' }'
         tn = '@T'
         use_c = ini.startswith('{') and not unknown
